@@ -23,6 +23,7 @@ import (
 	"os"
 	"path/filepath"
 	"sort"
+	"strconv"
 	"strings"
 
 	"golang.org/x/tools/go/packages"
@@ -59,6 +60,7 @@ type fileCtx struct {
 	inList  map[ast.Stmt]bool     // statements that are direct members of a statement list
 	parents map[ast.Node]ast.Node // parent links
 	fsSet   map[string]bool
+	fnSites map[uint32]string
 }
 
 func (c *fileCtx) off(p token.Pos) int { return c.tf.Offset(p) }
@@ -658,6 +660,7 @@ func (c *fileCtx) fnEntryRules() {
 		for _, b := range []byte(fmt.Sprintf("%s:%d:%s", filepath.Base(pos.Filename), pos.Line, fd.Name.Name)) {
 			h = (h ^ uint32(b)) * 16777619
 		}
+		c.fnSites[h] = fd.Name.Name
 		c.insert(fd.Body.Lbrace+1, fmt.Sprintf(" simrt.YieldAt(%d);", h), false, fd.Body)
 		c.needRT = true
 		c.site("R8.fnentry")
@@ -714,6 +717,8 @@ type report struct {
 	Files  map[string]map[string]int `json:"files"`
 	Totals map[string]int            `json:"totals"`
 	Pkgs   []string                  `json:"packages"`
+	// FnSites: function-entry site id -> "file (relative to the repository, or _ext/...):function"
+	FnSites map[string]string `json:"fn_sites,omitempty"`
 	// ExtSkipped: dependencies that matched -ext-sched-prefixes but use a construct the rules cannot express
 	ExtSkipped []string `json:"ext_skipped,omitempty"`
 }
@@ -830,7 +835,7 @@ func main() {
 					break
 				}
 				c := &fileCtx{fset: p.Fset, file: f, tf: p.Fset.File(f.Pos()), src: src, info: p.TypesInfo,
-					sites: map[string]int{}, skip: map[ast.Node]bool{}, fsSet: fsSet}
+					sites: map[string]int{}, skip: map[ast.Node]bool{}, fsSet: fsSet, fnSites: map[uint32]string{}}
 				c.buildParents()
 				c.schedRules()
 				if len(c.errs) > 0 {
@@ -854,7 +859,7 @@ func main() {
 				os.Exit(2)
 			}
 			c := &fileCtx{fset: p.Fset, file: f, tf: p.Fset.File(f.Pos()), src: src, info: p.TypesInfo,
-				sites: map[string]int{}, skip: map[ast.Node]bool{}, fsSet: fsSet}
+				sites: map[string]int{}, skip: map[ast.Node]bool{}, fsSet: fsSet, fnSites: map[uint32]string{}}
 			c.buildParents()
 			if fnOnly[p.PkgPath] {
 				c.fnEntryRules()
@@ -892,6 +897,12 @@ func main() {
 				overlay[name] = dst
 			}
 			rep.Files[rel] = c.sites
+			for h, fn := range c.fnSites {
+				if rep.FnSites == nil {
+					rep.FnSites = map[string]string{}
+				}
+				rep.FnSites[strconv.FormatUint(uint64(h), 10)] = rel + ":" + fn
+			}
 			for k, v := range c.sites {
 				rep.Totals[k] += v
 			}
